@@ -207,9 +207,13 @@ def frag_xml():
     return st.lists(ref, min_size=3, max_size=9).map(b"".join)
 
 
+BIGNUMS = [b"%d" % n for n in (2**31 - 1, 2**31, 2**32, 2**63, 2**64, 10**20, 10**100)] + [b"9" * 4300, b"9" * 4301, b"1" + b"0" * 5000]
+
+
 def frag_chr():
-    n = st.one_of(st.sampled_from([65, 0, 255, 256, 55296, 57343, 65535, 99999, 1114111]), st.integers(0, 99999))
-    return st.tuples(st.sampled_from([b"chr", b"chrw", b"chrb", b"ChrW", b"CHR"]), n, st.integers(0, 3)).map(lambda t: t[0] + b"(" + b"0" * t[2] + b"%d" % t[1] + b")")
+    n = st.one_of(st.sampled_from([65, 0, 255, 256, 55296, 57343, 65535, 99999, 1114111]), st.integers(0, 99999)).map(lambda n: b"%d" % n)
+    n = st.one_of(n, n, n, st.sampled_from(BIGNUMS[:7]))
+    return st.tuples(st.sampled_from([b"chr", b"chrw", b"chrb", b"ChrW", b"CHR"]), n, st.integers(0, 3)).map(lambda t: t[0] + b"(" + b"0" * t[2] + t[1] + b")")
 
 
 def frag_unescape():
@@ -313,6 +317,16 @@ def frag_straddle():
     )
 
 
+def frag_nested_kw():
+    """plain indicators nested three deep with two hits inside the middle one: keywords as labels of a domain inside an e-mail
+    address, or as segments of a path (after the first keyword closes, the second one belongs to the middle context again)"""
+    kw = st.sampled_from([b"strlen", b"kernel32", b"VirtualAlloc", b"GetProcAddress", b"ftp", b"smtp", b"socket"])
+    return st.one_of(
+        _j(st.sampled_from([b"bob@", b"first.last@", b""]), kw, b".", kw, st.sampled_from([b".example.com", b".mail.example.org"])),
+        _j(st.sampled_from([b"/tmp/", b"/usr/lib/", b"C:\\dir\\"]), kw, st.sampled_from([b"/", b"\\", b"-"]), kw, st.sampled_from([b"/x", b".txt", b""])),
+    )
+
+
 def frag_vba():
     return _j(st.sampled_from([b"CreateObject(", b"createobject("]), st.sampled_from([b'"WScript.Shell"', b"(a)(b)", b"((", b"x", b""]), st.sampled_from([b")", b"", b"))"]))
 
@@ -350,6 +364,7 @@ def base_fragment():
         frag_net(),
         frag_path(),
         frag_straddle(),
+        frag_nested_kw(),
         frag_vba(),
         st.sampled_from(KEYWORDS),
         st.sampled_from(EDGE),
